@@ -740,7 +740,10 @@ def _pipeline(chk, tier, pid, beh):
         return {"kind": "dir", "name": nm(t), "tree": {"entries": es}}
     trees = [{"entries": [fl("a.sol", "c5"), dr("sub", [fl("b.sol", "c6"), fl("c.sol", "c5")])]},
              {"entries": [dr("one", [fl("Alpha.sol", "c5")]), dr("two", [fl("Beta.sol", "c6")])]},
-             {"entries": [fl("x.sol", "c6"), fl("y.sol", "c5"), dr("deep", [dr("er", [fl("z.sol", "c6")])])]}] + trees
+             {"entries": [fl("x.sol", "c6"), fl("y.sol", "c5"), dr("deep", [dr("er", [fl("z.sol", "c6")])])]},
+             # a file whose contracts declare state variables of the same names (c8): what is reported for it is a
+             # function of the file, run after run
+             {"entries": [fl("Same.sol", "c8"), dr("lib", [fl("Names.sol", "c8"), fl("b.sol", "c5")])]}] + trees
     recs = pipeline.run_trees(chk, hb, sb, trees, cat, d)
     if not recs:
         raise ToolError("no pipeline runs")
